@@ -368,6 +368,8 @@ def program_correspondence(ctx, props_ok):
         recs = []
         for i in range(nrec):
             vals = cell_values(rng, len(KEYS))
+            if rng.random() < 0.3:
+                vals[rng.randrange(len(vals))] = rng.choice(EQ_VALUES)      # a DKVP value containing the pair separator
             recs.append([(b"id", b"r%d" % i)] + [(k.encode(), v) for k, v in zip(KEYS, vals)])
         plans.append((flag, racts, chain, recs, dkvp(recs), FLAGARGS[flag] + chain_args(chain)))
     results = pmap_mlr(ctx, [(p[5], p[4]) for p in plans])
@@ -472,6 +474,41 @@ def render_input(fmt, recs):
     return b"\n".join(lines) + b"\n"
 
 
+def tsv_decode(b):
+    """TSV cell text -> value: \\t \\n \\r \\\\ escapes (pkg/lib TSVDecodeField)"""
+    out, i = bytearray(), 0
+    while i < len(b):
+        if b[i] == 0x5c and i + 1 < len(b) and b[i + 1] in b"tnr\\":
+            out.append({0x74: 9, 0x6e: 10, 0x72: 13, 0x5c: 0x5c}[b[i + 1]])
+            i += 2
+        else:
+            out.append(b[i]); i += 1
+    return bytes(out)
+
+
+def tsv_encode(v):
+    return v.replace(b"\\", b"\\\\").replace(b"\t", b"\\t").replace(b"\n", b"\\n").replace(b"\r", b"\\r")
+
+
+def csv_encode(v):
+    if v == b"" or any(c in v for c in b',"\n\r') or v[:1] == b" " or v[-1:] == b" ":
+        return b'"' + v.replace(b'"', b'""') + b'"'
+    return v
+
+
+def parse_dkvp_sep(out, fs, ps):
+    recs = []
+    for line in out.split(b"\n"):
+        if line == b"":
+            continue
+        rec = []
+        for f in line.split(fs):
+            k, _, v = f.partition(ps)
+            rec.append((k, v))
+        recs.append(rec)
+    return recs
+
+
 def parse_output(fmt, out, nkeys_hint=None):
     """records as lists of (key, value) bytes; None when the format/values combination is not parseable unambiguously"""
     if fmt == "dkvp":
@@ -480,7 +517,7 @@ def parse_output(fmt, out, nkeys_hint=None):
         blocks, cur = [], []
         text = out.decode("latin1")
         if fmt == "tsv":
-            rows = [l.split("\t") for l in text.split("\n")]
+            rows = [[tsv_decode(c.encode("latin1")).decode("latin1") for c in l.split("\t")] for l in text.split("\n")]
             rows = [r if r != [""] else [] for r in rows]
             if rows and rows[-1] == []:
                 rows.pop()
@@ -538,12 +575,40 @@ def parse_output(fmt, out, nkeys_hint=None):
     return None
 
 
-def pipeline_oracle(ctx):
-    """read-only chains over every spelling class x inference flags x non-JSON writers: unassigned cells byte-identical, same relative order"""
+EQ_VALUES = [b"YWJjZA==", b"QQ==", b"http://h/p?q=1&r=2", b"a==b", b"=leading", b"trailing=", b"0x1F=", b"k=v", b"1=2=3", b"=", b"==", b"+5=+5", b"1.500=1.5"]
+COLON_VALUES = [b"12:30:45", b"[::1]:8080", b"example.org:443", b"a,b", b"k=v", b"::", b":x", b"x:", b"0x1F:0b101", b"00:00:01", b"1,000.50", b"a : b", b"http://h/p?q=1&r=2"]
+MULTI_VALUES = [b"a;b", b"x:y=z", b":", b"=", b"a:b", b"1;2;3x", b"k:v", b"=:", b"0xff", b"1.500", b"p=q;r"]
+CSV_VALUES = [b"a,b", b'say "hi"', b" lead", b"trail ", b'x,"y",z', b'"', b",", b",,", b'""', b"l1\nl2", b"a\tb", b"1,5", b"0xff,0xFF", b"=", b"a=b", b"plain", b"1.500", b"+5"]
+TSV_VALUES = [b"a\tb", b"l1\nl2", b"back\\slash", b"\\t", b"a,b", b'say "hi"', b"x\\", b"\t", b"tab\tand\\n", b"plain", b"007", b"a=b", b" lead", b"1e3"]
+SEP_DROP_OTHERS = {"cut -o", "template"}      # verbs of the pool that drop fields they do not name
+
+
+def build_chain(rng, recs, flag, sep_safe=False):
+    chain, wset, mset = [], set(), set()
+    for _ in range(rng.randint(1, 3)):
+        while True:
+            argv, w, mv = rng.choice(verb_pool(rng, KEYS))
+            if not sep_safe:
+                break
+            name = " ".join(argv[:2]) if argv[0] == "cut" and "-o" in argv else argv[0]
+            if name not in SEP_DROP_OTHERS and not any("joink" in a for a in argv) and argv[0] not in ("nest", "grep", "sec2gmt", "sort-within-records", "fill-down", "unsparsify", "regularize"):
+                break
+        if isinstance(w, str) and w.startswith("sec2gmt:"):
+            # sec2gmt assigns only numeric values: keep it a reader by pointing it at a column of non-numeric text
+            col = w.split(":")[1].encode()
+            for r in recs:
+                for j, (k, v) in enumerate(r):
+                    if k == col and (c06.ref_infer(v, flag)[0] in ("int", "float") or v == b""):
+                        r[j] = (k, b"x" + v)
+            w = []
+        chain.append(argv)
+        wset |= set(w)
+        mset |= set(mv)
+    return chain, wset, mset
+
+
+def standard_plans(ctx, nruns):
     rng = ctx.rng
-    nruns = 200 if ctx.tier == "quick" else 6000
-    checked_cells = 0
-    reported = 0
     plans = []
     for ri in range(nruns):
         flag = rng.choice(FLAGS)
@@ -553,34 +618,97 @@ def pipeline_oracle(ctx):
         nrec = rng.randint(8, 24)
         recs = []
         col_pool = cell_values(rng, 14, nospace)
+        if ifmt == "dkvp":
+            col_pool += [rng.choice(EQ_VALUES) for _ in range(5)]       # DKVP values containing the pair separator
         for i in range(nrec):
             vals = [rng.choice(col_pool) if rng.random() < 0.5 else cell_values(rng, 1, nospace)[0] for _ in KEYS]
             recs.append([(b"id", b"r%d" % i)] + [(k.encode(), v) for k, v in zip(KEYS, vals)])
         if ofmt == "markdown":
             recs = [[(k, v.replace(b"|", b"!")) for k, v in r] for r in recs]
-        chain, wset, mset = [], set(), set()
-        for _ in range(rng.randint(1, 3)):
-            argv, w, mv = rng.choice(verb_pool(rng, KEYS))
-            if isinstance(w, str) and w.startswith("sec2gmt:"):
-                # sec2gmt assigns only numeric values: keep it a reader by pointing it at a column of non-numeric text
-                col = w.split(":")[1].encode()
-                for r in recs:
-                    for j, (k, v) in enumerate(r):
-                        if k == col and (c06.ref_infer(v, flag)[0] in ("int", "float") or v == b""):
-                            r[j] = (k, b"x" + v)
-                w = []
-            chain.append(argv)
-            wset |= set(w)
-            mset |= set(mv)
+        chain, wset, mset = build_chain(rng, recs, flag)
         inp = render_input(ifmt, recs)
         args = FLAGARGS[flag] + ["--i" + ifmt, "--o" + ofmt] + chain_args(chain)
-        plans.append((flag, ifmt, ofmt, recs, chain, wset, mset, inp, args))
-    results = pmap_mlr(ctx, [(p[8], p[7]) for p in plans])
-    for (flag, ifmt, ofmt, recs, chain, wset, mset, inp, args), (st, out, err) in zip(plans, results):
+        plans.append({"flag": flag, "ifmt": ifmt, "ofmt": ofmt, "recs": recs, "chain": chain, "wset": wset, "mset": mset, "inp": inp, "args": args,
+                      "parse": (lambda out, f=ofmt: parse_output(f, out)), "ext": "dat"})
+    return plans
+
+
+def separator_plans(ctx, nruns):
+    """values (and one key) containing the INPUT format's own separators, wherever the format can carry them:
+    DKVP values with the pair separator (default, --ips, --ips-regex, multi-character separators) and a key-less field;
+    CSV cells and a header cell with commas / quotes / edge spaces / line breaks via quoting; TSV cells and a header cell with escapes"""
+    rng = ctx.rng
+    plans = []
+    for ri in range(nruns):
+        flag = rng.choice(FLAGS)
+        variant = ["dkvp-eq", "dkvp-colon", "dkvp-regex", "dkvp-multi", "csv-quoted", "tsv-escaped"][ri % 6]
+        nrec = rng.randint(4, 10)
+        special, xkey, iargs, outs = {
+            "dkvp-eq": (EQ_VALUES, None, ["--idkvp"], [("dkvp", ["--odkvp"]), ("csv", ["--ocsv"]), ("tsv", ["--otsv"]), ("xtab", ["--oxtab"])]),
+            "dkvp-colon": (COLON_VALUES, None, ["--idkvp", "--ifs", ";", "--ips", ":"], [("dkvp;:", ["--odkvp", "--ofs", ";", "--ops", ":"]), ("csv", ["--ocsv"]), ("tsv", ["--otsv"])]),
+            "dkvp-regex": ([v for v in COLON_VALUES if not v.startswith(b":") and v != b"::"], None, ["--idkvp", "--ifs", ";", "--ips-regex", " *: *"],
+                           [("dkvp;=", ["--odkvp", "--ofs", ";", "--ops", "="]), ("csv", ["--ocsv"])]),
+            "dkvp-multi": (MULTI_VALUES, None, ["--idkvp", "--ifs", ";;", "--ips", ":="], [("dkvp;;:=", ["--odkvp", "--ofs", ";;", "--ops", ":="]), ("csv", ["--ocsv"])]),
+            "csv-quoted": (CSV_VALUES, b"k,1", ["--icsv"], [("csv", ["--ocsv"]), ("tsv", ["--otsv"])]),
+            "tsv-escaped": (TSV_VALUES, b"k\tx", ["--itsv"], [("tsv", ["--otsv"]), ("csv", ["--ocsv"])]),
+        }[variant]
+        oname, oargs = rng.choice(outs)
+        plain = cell_values(rng, 8, nospace=True)
+        recs = []
+        for i in range(nrec):
+            r = [(b"id", b"r%d" % i)]
+            for k in KEYS:
+                v = rng.choice(special) if rng.random() < 0.55 else rng.choice(plain)
+                if oname == "xtab" and (b" " in v or v == b""):
+                    v = rng.choice(plain)
+                r.append((k.encode(), v))
+            if xkey is not None:
+                r.append((xkey, rng.choice(special)))
+            recs.append(r)
+        chain, wset, mset = build_chain(rng, recs, flag, sep_safe=True)
+        keyless = variant == "dkvp-eq" and rng.random() < 0.5
+        if variant.startswith("dkvp"):
+            fs, ps = {"dkvp-eq": (b",", b"="), "dkvp-colon": (b";", b":"), "dkvp-regex": (b";", rng.choice([b" : ", b": ", b" :", b":"])), "dkvp-multi": (b";;", b":=")}[variant]
+            lines = []
+            for r in recs:
+                fields = [k + ps + v for k, v in r]
+                if keyless:
+                    fields.append(b"solo")          # a field without pair separator: key = its 1-up position
+                lines.append(fs.join(fields))
+            inp = b"\n".join(lines) + b"\n"
+            if keyless:
+                recs = [r + [(b"%d" % (len(r) + 1), b"solo")] for r in recs]
+        elif variant == "csv-quoted":
+            inp = b"\n".join([b",".join(csv_encode(k) for k, _ in recs[0])] + [b",".join(csv_encode(v) if v != b"" else b"" for _, v in r) for r in recs]) + b"\n"
+        else:
+            inp = b"\n".join([b"\t".join(tsv_encode(k) for k, _ in recs[0])] + [b"\t".join(tsv_encode(v) for _, v in r) for r in recs]) + b"\n"
+        if oname.startswith("dkvp") and oname != "dkvp":
+            ofs, ops = {"dkvp;:": (b";", b":"), "dkvp;=": (b";", b"="), "dkvp;;:=": (b";;", b":=")}[oname]
+            parse = lambda out, a=ofs, b=ops: parse_dkvp_sep(out, a, b)
+        else:
+            parse = lambda out, f=oname: parse_output(f, out)
+        args = FLAGARGS[flag] + iargs + oargs + chain_args(chain)
+        plans.append({"flag": flag, "ifmt": variant, "ofmt": oname, "recs": recs, "chain": chain, "wset": wset, "mset": mset, "inp": inp, "args": args, "parse": parse,
+                      "ext": "dat"})
+    return plans
+
+
+def pipeline_oracle(ctx):
+    """read-only chains over every spelling class x inference flags x non-JSON writers: unassigned cells byte-identical, same relative order"""
+    nruns = 200 if ctx.tier == "quick" else 6000
+    nsep = 90 if ctx.tier == "quick" else 2400
+    checked_cells = 0
+    reported = 0
+    plans = standard_plans(ctx, nruns) + separator_plans(ctx, nsep)
+    results = pmap_mlr(ctx, [(p["args"], p["inp"]) for p in plans])
+    for p, (st, out, err) in zip(plans, results):
+        flag, ifmt, ofmt, recs, chain, wset, mset, inp, args = (p[k] for k in ("flag", "ifmt", "ofmt", "recs", "chain", "wset", "mset", "inp", "args"))
         ctx.dist("pipeline:%s>%s" % (ifmt, ofmt))
         ctx.dist("pipeline_flag:" + flag)
         for v in chain:
             ctx.dist("verb:" + v[0])
+        if st == "died" and b"type-assertion failed" in err:
+            st = 1        # an asserting_* function ended the process: a legitimate error exit
         if st not in (0, 1):
             ctx.violation({"broken": "pipeline run died (panic, exit inside a verb, or hang)", "kind": "pipeline", "args": args, "stdin": inp.decode("latin1"),
                            "stdin_hex": inp.hex(), "status": st, "stderr": err.decode("latin1")[-600:]}, found_input=False)
@@ -592,7 +720,7 @@ def pipeline_oracle(ctx):
             if len(ctx.cov["pipeline_nonzero_exit_samples"]) < 6:
                 ctx.cov["pipeline_nonzero_exit_samples"].append({"args": args, "stderr": err.decode("latin1")[:200]})
             continue
-        outs = parse_output(ofmt, out)
+        outs = p["parse"](out)
         if ofmt == "nidx":
             # positional keys: recover names only when no field was added, removed or moved
             if wset or mset:
@@ -603,9 +731,10 @@ def pipeline_oracle(ctx):
             byid.setdefault(dict(r).get(b"id"), []).append(r)
         for r in recs:
             ctx.count(("pipeline", flag, ifmt, ofmt, tuple(map(tuple, chain)), tuple(r)))
-            for o in byid.get(r[0][1], []):
+            rid = dict(r)[b"id"]
+            for o in byid.get(rid, []):
                 od = dict(o)
-                keep = [(k, v) for k, v in r if k.decode() not in wset]
+                keep = [(k, v) for k, v in r if k.decode("latin1") not in wset]
                 for k, v in keep:
                     checked_cells += 1
                     want = v
@@ -615,18 +744,19 @@ def pipeline_oracle(ctx):
                         if reported < 3:
                             reported += 1
                             ctx.violation({"broken": "oracle: a field no verb assigns changed between input and output", "kind": "pipeline", "args": args,
-                                           "stdin": inp.decode("latin1"), "stdin_hex": inp.hex(), "record_id": r[0][1].decode(), "field": k.decode(),
-                                           "expected": v.decode("latin1"), "observed": od.get(k, b"(missing)").decode("latin1"),
+                                           "stdin": inp.decode("latin1"), "stdin_hex": inp.hex(), "record_id": rid.decode(), "field": k.decode("latin1"),
+                                           "expected": v.decode("latin1"), "observed": od.get(k, b"(missing)").decode("latin1"), "input_variant": ifmt, "output_format": ofmt,
                                            "class": "unassigned-field-changed:" + "+".join(sorted({c[0] for c in chain}))})
                 # relative order of the fields that are neither assigned nor moved
-                stay = [k for k, _ in r if k.decode() not in wset and k.decode() not in mset]
+                stay = [k for k, _ in r if k.decode("latin1") not in wset and k.decode("latin1") not in mset]
                 got = [k for k, _ in o if k in set(stay)]
                 if got != stay and reported < 3:
                     reported += 1
                     ctx.violation({"broken": "oracle: unassigned fields changed relative order", "kind": "pipeline", "args": args, "stdin": inp.decode("latin1"),
-                                   "stdin_hex": inp.hex(), "record_id": r[0][1].decode(), "expected_order": [k.decode() for k in stay], "observed_order": [k.decode() for k in got],
+                                   "stdin_hex": inp.hex(), "record_id": rid.decode(), "expected_order": [k.decode("latin1") for k in stay],
+                                   "observed_order": [k.decode("latin1") for k in got], "input_variant": ifmt, "output_format": ofmt,
                                    "class": "unassigned-field-order:" + "+".join(sorted({c[0] for c in chain}))})
-    ctx.cov["pipeline_oracle"] = {"runs": nruns, "cells_compared": checked_cells}
+    ctx.cov["pipeline_oracle"] = {"runs": nruns, "separator_runs": nsep, "cells_compared": checked_cells}
 
 
 def run(ctx):
@@ -637,6 +767,9 @@ def run(ctx):
                        "(3) per-record programs (reads, derived assignments, put, unset, rename, reorder) rendered as mlr chains; full output record compared with the model "
                        "(assigned cells the model does not predict are wildcards). (4) oracle: chains of 1-3 verbs from a pool of ~90 verb invocations x 3 input formats x "
                        "8 non-JSON writers: every cell outside the chain's write set byte-identical and in original relative order. A case is non-trivial when distinct.")
+    ctx.cov["rule"] += (" (4b) separator-bearing inputs: DKVP values containing the pair separator (default '=', --ips ':', --ips-regex, multi-character --ifs/--ips) and "
+                        "key-less fields; CSV cells and a header cell with commas/quotes/edge spaces/line breaks via RFC quoting; TSV cells and a header cell with \\t \\n \\\\ "
+                        "escapes; each through the writers that can carry them (dkvp with matching separators, csv, tsv, xtab).")
     ctx.cov["trusted_base"] = ["Coq 8.16.1 kernel + vm_compute", "no axioms (Print Assumptions: closed under the global context)",
                                "implrun driver + add-only export VerifState (pkg/mlrval/zz_verif_c03.go, tag verif)", "python harness (output-format parsers of the oracle)",
                                "C06 model of inference (only as the instantiation of the inferrer parameter; the theorems hold for every inferrer)"]
@@ -674,8 +807,9 @@ def replay(ctx, path):
         print("replay: status=%s\n%s" % (st, out.decode("latin1")))
         ctx.count(("replay", 1)); ctx.count(("replay", 2))
         if "expected" in obj and obj.get("field"):
-            fmt = [a[3:] for a in obj["args"] if a.startswith("--o")]
-            outs = parse_output(fmt[0] if fmt else "dkvp", out) or []
+            of = obj.get("output_format") or ([a[3:] for a in obj["args"] if a.startswith("--o") and a not in ("--ofs", "--ops")] or ["dkvp"])[0]
+            seps = {"dkvp;:": (b";", b":"), "dkvp;=": (b";", b"="), "dkvp;;:=": (b";;", b":=")}
+            outs = (parse_dkvp_sep(out, *seps[of]) if of in seps else parse_output(of, out)) or []
             hit = [dict(r).get(obj["field"].encode()) for r in outs if dict(r).get(b"id", b"").decode() == obj.get("record_id")]
             if not hit or any(h is None or h.decode("latin1") != obj["expected"] for h in hit):
                 ctx.violation(dict(obj, replayed=True, observed_now=[h.decode("latin1") if h else None for h in hit]))
